@@ -739,6 +739,10 @@ def obligations(tier, seed):
     CORE = ["and", "or", "is", "ia", "ib", "oa", "lo", "hi", "very", "any", "then"]
     for M in (7,) if q else (7, 8, 9):
         add(f"antecedent/core{M}", ["if"] + [None] * M + TAIL, split=1 if M < 9 else 2, only=CORE)
+    # longer antecedents over a small vocabulary WITH parentheses: grouping and balance beyond any6/any7
+    PAREN = ["and", "is", "ia", "any", "(", ")"]
+    for M in (7, 8) if q else (7, 8, 9, 10):
+        add(f"antecedent/paren{M}", ["if"] + [None] * M + TAIL, split=1 if M < 9 else 2, only=PAREN)
     HEAD = ["if", "ia", "is", "lo", "then"]
     for M in range(1, 7 if q else 9):
         add(f"consequent/any{M}", HEAD + [None] * M)
